@@ -51,7 +51,8 @@ def run(cx, chk):
                      ("C11.R3", "estimate = ctr.estimate(h) + [doorkeeper.contains(h)]"),
                      ("C11.R4", "lt/le/gt/ge/eq = OP(estimate expression of a, estimate expression of b) on every path"),
                      ("C11.R5", "Bloom::add and Bloom::contains probe the same indices; contains_or_add adds iff absent"),
-                     ("C11.R6", "nibble increment guarded by v < 15; reset maps every byte through (b >> 1) & 0x77")):
+                     ("C11.R6", "nibble increment guarded by v < 15; reset maps every byte through (b >> 1) & 0x77"),
+                     ("C11.R7", "the doorkeeper has at least one hash location for every accepted configuration (sign analysis of the sizing formulas)")):
         chk.rule(rid, txt)
     for cfg, F in cx.cfgs():
         r1(cx, chk, cfg, F)
@@ -59,6 +60,7 @@ def run(cx, chk):
         r3r4(cx, chk, cfg, F)
         r5(cx, chk, cfg, F)
         r6(cx, chk, cfg, F)
+        r7(cx, chk, cfg, F)
 
 
 def r1(cx, chk, cfg, F):
@@ -353,3 +355,37 @@ def r6(cx, chk, cfg, F):
         chk.ob("C11.R6", cfg + ":row-reset", "every byte := (b >> 1) & 0x77")
     else:
         chk.violation("C11.R6", "row-reset|none", "CountMinRow::reset does not rewrite the counter bytes", f["span"]["file"], f["span"]["lo"], f["q"], None, cfg)
+
+
+def r7(cx, chk, cfg, F):
+    """set_locs >= 1 on every successful path of TinyLFUBuilder::finalize: with zero locations Bloom::contains is vacuously true for
+    every hash, so estimates start at 1 and contains() reports unrecorded keys"""
+    from .lib import sign
+    from .lib.ranges import Ctx
+    f = F.find("lfu::tinylfu::TinyLFUBuilder::finalize")
+    n = 0
+    for p in cx.paths(cfg, f["path"], policy=NoGetSize(), tag="r7"):
+        rv = p.ret
+        if not (isinstance(rv, tuple) and rv[0] == "agg" and rv[2][1] == "Ok"):
+            continue
+        bl = [t for t in subterms(rv) if t[0] == "agg" and t[1] == "adt" and t[2][0].endswith("Bloom")]
+        if not bl:
+            chk.undecide("C11.R7", f["q"], "no Bloom aggregate in the constructed TinyLFU")
+            continue
+        v = dict(zip(bl[0][4], bl[0][3]))
+        locs = v.get("set_locs")
+        c = Ctx(p, len(p.events))
+        n += 1
+        if sign.int_ge1(locs, c):
+            chk.ob("C11.R7", "%s:set_locs|%d" % (cfg, n), "set_locs = %s >= 1" % fmt_val(locs)[:70])
+        else:
+            chk.violation("C11.R7", "set_locs", "the number of doorkeeper hash locations (%s) is not shown to be >= 1 for every accepted false-positive ratio: with 0 locations the doorkeeper contains every key" % fmt_val(locs)[:90],
+                          "src/lfu/tinylfu/bloom.rs", None, f["q"], None, cfg)
+    if n < 1:
+        raise AnalysisError("C11.R7: no successful constructor path")
+
+
+class NoGetSize(absint.DefaultPolicy):
+    def inline(self, interp, fr, info):
+        q = info["q"] or ""
+        return not (q.endswith("::get_size") or q.endswith("::next_power_of_2"))
